@@ -310,7 +310,8 @@ also('C14', 'no function keeps a hand-rolled memo in a module-level container th
             'no option is normalised and then never used (UP1: `alternating`).')
 also('C15', 'a buffer that receives angles never takes its dtype from an input (DT6: integer-typed rotation matrices); `param or default` is not used on numeric parameters '
             '(FZ1: spin 0); a tolerance parameter that is never read is forwarded to the callee that takes the same parameter (FW1).')
-also('C17', 'no call passes two bare names to a callee whose parameters carry those names in crossed positions (AR3 on dicke + utils).')
+also('C17', 'no call passes two bare names to a callee whose parameters carry those names in crossed positions (AR3 on dicke + utils); the asserts of the Dicke table '
+            'constructors admit every (copies >= 1, dimension >= 2) the property quantifies over (DOM1).')
 also('C18', 'no public constructor hands out the array of an unfrozen memoised helper (O3B); where a function clamps an input parameter, a square-root radicand computed from it '
             'is clamped itself (F8: closed forms vanish, not NaN, at the end point); each block of the six-parameter UPB reads only its own party\'s parameters (RP1).')
 also('C20', 'an eigenvector taken from eigh / eigsh is a column `[:, k]`, never a row (EV1: numerical-range points attain the support function); a default-float buffer '
